@@ -3,79 +3,76 @@
    admm and constrained_parafac (loop skeletons).  P = Python parameter values with truthiness `truthy`,
    M = factor matrices, op k p = the operator of constraint k with parameter p; least-squares steps and all stopping
    decisions are arbitrary functions (env), budgets are arbitrary naturals.
-   `_partial`: holds under the named hypothesis `nonneg_spec` (every dict key is >= 0); `_refuted`: the statement
-   without that hypothesis fails on the model (= on the code: a negative key aliases a mode, the scan compares raw keys).
+   zrequested n s m p: keyword value s asks for parameter p on mode m (a dict key addresses a mode as Python indexing
+   does: `addresses`).  zwf_spec / zwf_specs: dict keys are distinct / keyword names are distinct (what Python guarantees).
    NOT proved here (kept visible): "the operator of kind k maps into the constraint set of k" - that is C12's subject;
-   it enters C11_returned_factor_feasible_partial as the hypothesis `forall k p v, feas k p (op k p v)`. *)
+   it enters C11_returned_factor_feasible_partial as the hypothesis `forall k p v, feas k p (op k p v)`.
+   History: before fix c019b1a the scan compared raw dict keys and non_negative={2: ..}, l1_reg={-1: ..} on order 3 was
+   accepted (the table theorems needed the hypothesis "keys >= 0" and had refutation witnesses); the model follows the
+   repaired scan and the theorems hold for all int keys (Example C11_negative_key_alias_rejected). *)
 From Coq Require Import List Arith Bool ZArith.
 From TLV Require Import Base.PyList Base.Tensor.
 From TLV Require Import Model.Constraints Proofs.ConstraintsProofs Proofs.ConstraintsProofsLoop Proofs.ConstraintsProofsKeys.
 Import ListNotations.
 
-(* (i) decision logic at the real call site (the twelve keywords): table entry m = what the user requested on m *)
-Theorem C11_table_iff_requested_partial : forall (P : Type) (truthy : P -> bool) (n : nat) (f : kind -> @zspec P) (tab : @table P),
-  (forall k, zwf_spec (f k)) -> (forall k, nonneg_spec (f k)) ->
+(* (i) decision logic at the real call site (the twelve keywords), every request: when the table exists, entry m is (k,p)
+   iff keyword k requested p on m, and empty iff nobody requested anything on m *)
+Theorem C11_table_iff_requested : forall (P : Type) (truthy : P -> bool) (n : nat) (f : kind -> @zspec P) (tab : @table P),
   zvalidate_table truthy n (zkeywords f) = Ok tab ->
   length tab = n /\
   (forall m k p, nth m tab None = Some (k, p) <-> zrequested truthy n (f k) m p) /\
   (forall m, nth m tab None = None <-> forall k p, ~ zrequested truthy n (f k) m p).
 Proof. exact @zkeywords_table. Qed.
-Print Assumptions C11_table_iff_requested_partial.
+Print Assumptions C11_table_iff_requested.
 
-(* ... and an error iff two keywords address one mode (or a keyword addresses a mode that does not exist) *)
-Theorem C11_reject_iff_double_partial : forall (P : Type) (truthy : P -> bool) (n : nat) (f : kind -> @zspec P),
-  (forall k, zwf_spec (f k)) -> (forall k, nonneg_spec (f k)) ->
+(* ... and an error iff two keywords address one mode, or one dict names a mode twice (by two different keys), or a
+   keyword addresses a mode that does not exist (a mode >= n, or a dict key below -n) *)
+Theorem C11_reject_iff_double : forall (P : Type) (truthy : P -> bool) (n : nat) (f : kind -> @zspec P),
+  (forall k, zwf_spec (f k)) ->
   (zvalidate_table truthy n (zkeywords f) = Err <->
    (exists k1 k2 m p1 p2, k1 <> k2 /\ zrequested truthy n (f k1) m p1 /\ zrequested truthy n (f k2) m p2) \/
-   (exists k m p, zrequested truthy n (f k) m p /\ n <= m)).
+   (exists k d key1 p1 key2 p2 m, f k = ZDict d /\ In (key1, p1) d /\ In (key2, p2) d /\ key1 <> key2 /\
+                                  addresses n key1 m /\ addresses n key2 m) \/
+   (exists k m p, zrequested truthy n (f k) m p /\ n <= m) \/
+   (exists k d key p, f k = ZDict d /\ In (key, p) d /\ (key < - Z.of_nat n)%Z)).
 Proof. exact @zkeywords_err_iff. Qed.
-Print Assumptions C11_reject_iff_double_partial.
+Print Assumptions C11_reject_iff_double.
 
-(* without the hypothesis on the keys both fail: non_negative={2: ..}, l1_reg={-1: ..} on order 3 is accepted and the
-   non_negative request is lost *)
-Theorem C11_table_iff_requested_refuted : exists (n : nat) (f : kind -> @zspec nat) (tab : @table nat) (m : nat) (k : kind) (p : nat),
-  (forall k, zwf_spec (f k)) /\ zvalidate_table alias_truthy n (zkeywords f) = Ok tab /\
-  zrequested alias_truthy n (f k) m p /\ nth m tab None <> Some (k, p).
-Proof. exact table_iff_requested_refuted. Qed.
-Print Assumptions C11_table_iff_requested_refuted.
-
-Theorem C11_reject_iff_double_refuted : exists (n : nat) (f : kind -> @zspec nat),
-  (forall k, zwf_spec (f k)) /\
-  (exists k1 k2 m p1 p2, k1 <> k2 /\ zrequested alias_truthy n (f k1) m p1 /\ zrequested alias_truthy n (f k2) m p2) /\
-  zvalidate_table alias_truthy n (zkeywords f) <> Err.
-Proof. exact reject_iff_double_refuted. Qed.
-Print Assumptions C11_reject_iff_double_refuted.
-
-(* the same two statements for any list of (name, value) pairs with distinct names *)
-Theorem C11_table_general_partial : forall (P : Type) (truthy : P -> bool) (n : nat) (sp : list (kind * @zspec P)) (tab : @table P),
-  zwf_specs sp -> nonneg_specs sp -> zvalidate_table truthy n sp = Ok tab ->
+(* the same two statements for any list of (name, value) pairs *)
+Theorem C11_table_general : forall (P : Type) (truthy : P -> bool) (n : nat) (sp : list (kind * @zspec P)) (tab : @table P),
+  zvalidate_table truthy n sp = Ok tab ->
   length tab = n /\
   (forall m k p, nth m tab None = Some (k, p) <-> exists s, In (k, s) sp /\ zrequested truthy n s m p) /\
   (forall m, nth m tab None = None <-> forall k s p, In (k, s) sp -> ~ zrequested truthy n s m p).
 Proof. exact @zvalidate_table_ok. Qed.
-Print Assumptions C11_table_general_partial.
+Print Assumptions C11_table_general.
 
-Theorem C11_reject_general_partial : forall (P : Type) (truthy : P -> bool) (n : nat) (sp : list (kind * @zspec P)),
-  zwf_specs sp -> nonneg_specs sp ->
-  (zvalidate_table truthy n sp = Err <-> zdouble truthy n sp \/ zout_of_range truthy n sp).
+Theorem C11_reject_general : forall (P : Type) (truthy : P -> bool) (n : nat) (sp : list (kind * @zspec P)),
+  zwf_specs sp ->
+  (zvalidate_table truthy n sp = Err <-> zdouble truthy n sp \/ zself_alias n sp \/ zno_mode truthy n sp).
 Proof. exact @zvalidate_table_err_iff. Qed.
-Print Assumptions C11_reject_general_partial.
+Print Assumptions C11_reject_general.
 
 (* what validate_constraints(..., order) returns *)
-Theorem C11_validate_order_partial : forall (P : Type) (truthy : P -> bool) (n : nat) (sp : list (kind * @zspec P)) (order : nat)
+Theorem C11_validate_order : forall (P : Type) (truthy : P -> bool) (n : nat) (sp : list (kind * @zspec P)) (order : nat)
   (c : option (kind * P)),
-  zwf_specs sp -> nonneg_specs sp -> zvalidate truthy n sp order = Ok c ->
+  zvalidate truthy n sp order = Ok c ->
   order < n /\
   (forall k p, c = Some (k, p) <-> exists s, In (k, s) sp /\ zrequested truthy n s order p) /\
   (c = None <-> forall k s p, In (k, s) sp -> ~ zrequested truthy n s order p).
 Proof. exact @zvalidate_spec. Qed.
-Print Assumptions C11_validate_order_partial.
+Print Assumptions C11_validate_order.
 
-(* for non-negative keys the int-keyed definitions coincide with the natural-number-keyed ones *)
-Theorem C11_int_keys_coincide_with_mode_keys : forall (P : Type) (truthy : P -> bool) (n : nat) (sp : list (kind * @zspec P)),
-  nonneg_specs sp -> zvalidate_table truthy n sp = validate_table truthy n (nat_specs sp).
-Proof. exact @zvalidate_table_nat. Qed.
-Print Assumptions C11_int_keys_coincide_with_mode_keys.
+(* int keys: inside [-n, n) the int-keyed definitions are the mode-keyed ones on the normalised keys; outside -> error *)
+Theorem C11_int_keys_normalised : forall (P : Type) (truthy : P -> bool) (n : nat) (sp : list (kind * @zspec P)),
+  in_range_specs n sp -> zvalidate_table truthy n sp = validate_table truthy n (norm_specs n sp).
+Proof. exact @zvalidate_table_norm. Qed.
+Print Assumptions C11_int_keys_normalised.
+
+Theorem C11_key_outside_range_rejected : forall (P : Type) (truthy : P -> bool) (n : nat) (sp : list (kind * @zspec P)),
+  bad_key n sp -> zvalidate_table truthy n sp = Err.
+Proof. exact @zvalidate_table_bad. Qed.
+Print Assumptions C11_key_outside_range_rejected.
 
 (* (ii) admm returns the primal variable produced by the operator, for every budget and every residual test *)
 Theorem C11_admm_returns_operator_output : forall (M : Type) (msub madd : M -> M -> M) (R : M -> Prop) (n_iter : nat)
@@ -99,30 +96,30 @@ Theorem C11_skeleton : forall (P M : Type) (dM : M) (op : kind -> P -> M -> M) (
 Proof. exact @cp_skeleton. Qed.
 Print Assumptions C11_skeleton.
 
-(* (i)+(ii): the factor returned for a mode on which the user requested constraint k with parameter p
+(* (i)+(ii), every request: the factor returned for a mode on which the user requested constraint k with parameter p
    is an output of the operator of k with p *)
-Theorem C11_returned_factor_is_operator_output_partial : forall (P : Type) (truthy : P -> bool) (M : Type) (dM : M)
+Theorem C11_returned_factor_is_operator_output : forall (P : Type) (truthy : P -> bool) (M : Type) (dM : M)
   (op : kind -> P -> M -> M) (msub madd : M -> M -> M) (n : nat) (sp : list (kind * @zspec P)) (E : env (M := M))
   (i0 : init (M := M)) (fixed : list nat) (n_outer n_inner : nat) (zero : M) (fs : list M) (m : nat) (k : kind)
   (s : @zspec P) (p : P),
-  zwf_specs sp -> nonneg_specs sp ->
   constrained_cp dM op (zvalidate truthy n sp) msub madd E n i0 fixed n_outer n_inner zero = Ok fs ->
   m < length fs -> init_computed i0 = true \/ (In m (modes_list n fixed) /\ 0 < n_outer) ->
   In (k, s) sp -> zrequested truthy n s m p ->
   exists v, nth m fs dM = op k p v.
 Proof. exact @zcp_requested_in_range. Qed.
-Print Assumptions C11_returned_factor_is_operator_output_partial.
+Print Assumptions C11_returned_factor_is_operator_output.
 
-(* with a negative key: accepted although two keywords address the last mode, and the factor returned for the mode on
-   which non_negative was requested is an l1_reg output, not a non_negative output (factors are provenance tags) *)
-Theorem C11_returned_factor_is_operator_output_refuted : exists (n : nat) (f : kind -> @zspec nat) (fs : list (nat * nat)) (m : nat) (p : nat),
-  (forall k, zwf_spec (f k)) /\
-  constrained_cp (0, 0) alias_op (zvalidate alias_truthy n (zkeywords f)) (fun _ _ => (0, 0)) (fun _ _ => (0, 0)) alias_env
-                 n (IComputed [(0, 0); (0, 0); (0, 0)]) [] 2 1 (0, 0) = Ok fs /\
-  zdouble alias_truthy n (zkeywords f) /\
-  zrequested alias_truthy n (f KNonNeg) m p /\ (forall v, nth m fs (0, 0) <> alias_op KNonNeg p v).
-Proof. exact cp_alias_refuted. Qed.
-Print Assumptions C11_returned_factor_is_operator_output_refuted.
+(* every mode: the returned factor is prox_of c v with c exactly the request made for the mode (None: the plain iterate) *)
+Theorem C11_returned_factor_validated : forall (P : Type) (truthy : P -> bool) (M : Type) (dM : M)
+  (op : kind -> P -> M -> M) (msub madd : M -> M -> M) (n : nat) (sp : list (kind * @zspec P)) (E : env (M := M))
+  (i0 : init (M := M)) (fixed : list nat) (n_outer n_inner : nat) (zero : M) (fs : list M) (m : nat),
+  constrained_cp dM op (zvalidate truthy n sp) msub madd E n i0 fixed n_outer n_inner zero = Ok fs ->
+  m < length fs -> init_computed i0 = true \/ (In m (modes_list n fixed) /\ 0 < n_outer) ->
+  exists c v, nth m fs dM = prox_of op c v /\
+    (forall k p, c = Some (k, p) <-> exists s, In (k, s) sp /\ zrequested truthy n s m p) /\
+    (c = None <-> forall k s p, In (k, s) sp -> ~ zrequested truthy n s m p).
+Proof. exact @zcp_validated. Qed.
+Print Assumptions C11_returned_factor_validated.
 
 (* ... hence feasible, GIVEN that every operator maps into its constraint set (hypothesis; C12's subject) *)
 Theorem C11_returned_factor_feasible_partial : forall (P : Type) (truthy : P -> bool) (M : Type) (dM : M)
@@ -130,7 +127,6 @@ Theorem C11_returned_factor_feasible_partial : forall (P : Type) (truthy : P -> 
   (E : env (M := M)) (i0 : init (M := M)) (fixed : list nat) (n_outer n_inner : nat) (zero : M) (fs : list M) (m : nat)
   (k : kind) (s : @zspec P) (p : P),
   (forall k p v, feas k p (op k p v)) ->
-  zwf_specs sp -> nonneg_specs sp ->
   constrained_cp dM op (zvalidate truthy n sp) msub madd E n i0 fixed n_outer n_inner zero = Ok fs ->
   m < length fs -> init_computed i0 = true \/ (In m (modes_list n fixed) /\ 0 < n_outer) ->
   In (k, s) sp -> zrequested truthy n s m p ->
@@ -139,22 +135,22 @@ Proof. exact @zcp_feasible. Qed.
 Print Assumptions C11_returned_factor_feasible_partial.
 
 (* requests with two constraints on one mode are rejected by the decomposition, whatever the rest *)
-Theorem C11_decomposition_rejects_double_partial : forall (P : Type) (truthy : P -> bool) (M : Type) (dM : M)
+Theorem C11_decomposition_rejects_double : forall (P : Type) (truthy : P -> bool) (M : Type) (dM : M)
   (op : kind -> P -> M -> M) (msub madd : M -> M -> M) (n : nat) (sp : list (kind * @zspec P)) (E : env (M := M))
   (i0 : init (M := M)) (fixed : list nat) (n_outer n_inner : nat) (zero : M),
-  zwf_specs sp -> nonneg_specs sp -> zdouble truthy n sp \/ zout_of_range truthy n sp ->
+  zwf_specs sp -> zdouble truthy n sp \/ zself_alias n sp \/ zno_mode truthy n sp ->
   constrained_cp dM op (zvalidate truthy n sp) msub madd E n i0 fixed n_outer n_inner zero = Err.
 Proof. exact @zcp_rejects. Qed.
-Print Assumptions C11_decomposition_rejects_double_partial.
+Print Assumptions C11_decomposition_rejects_double.
 
-Theorem C11_success_implies_no_double_partial : forall (P : Type) (truthy : P -> bool) (M : Type) (dM : M)
+Theorem C11_success_implies_no_double : forall (P : Type) (truthy : P -> bool) (M : Type) (dM : M)
   (op : kind -> P -> M -> M) (msub madd : M -> M -> M) (n : nat) (sp : list (kind * @zspec P)) (E : env (M := M))
   (i0 : init (M := M)) (fixed : list nat) (n_outer n_inner : nat) (zero : M) (fs : list M),
-  zwf_specs sp -> nonneg_specs sp ->
+  zwf_specs sp ->
   constrained_cp dM op (zvalidate truthy n sp) msub madd E n i0 fixed n_outer n_inner zero = Ok fs ->
-  ~ zdouble truthy n sp /\ ~ zout_of_range truthy n sp.
+  ~ zdouble truthy n sp /\ ~ zself_alias n sp /\ ~ zno_mode truthy n sp.
 Proof. exact @zcp_ok_no_double. Qed.
-Print Assumptions C11_success_implies_no_double_partial.
+Print Assumptions C11_success_implies_no_double.
 
 (* modes that are updated: every mode not listed as fixed (the last one is never fixed) *)
 Theorem C11_free_modes_updated : forall (n : nat) (fixed : list nat) (m : nat),
@@ -167,23 +163,22 @@ Theorem C11_fixed_modes_kept : forall (n : nat) (fixed : list nat) (m : nat),
 Proof. exact @modes_list_fixed. Qed.
 Print Assumptions C11_fixed_modes_kept.
 
-(* non-vacuity: parameters are naturals (0 is falsy); non_negative by list on mode 0, l1_reg by dict on mode 2,
+(* non-vacuity: parameters are naturals (0 is falsy); non_negative by list on mode 0, l1_reg by dict on mode 2 (key -1),
    order 3: accepted, table as requested; adding simplex as a scalar: rejected *)
 Example C11_nonvacuous_table :
   let truthy := fun p : nat => negb (Nat.eqb p 0) in
   let f := fun k => match k with
                     | KNonNeg => ZList [Some 1; None; Some 0]
-                    | KL1 => ZDict [(2%Z, 7)]
+                    | KL1 => ZDict [((-1)%Z, 7)]
                     | _ => ZNone end in
-  (forall k, zwf_spec (f k)) /\ (forall k, nonneg_spec (f k)) /\
+  (forall k, zwf_spec (f k)) /\
   zvalidate_table truthy 3 (zkeywords f) = Ok [Some (KNonNeg, 1); None; Some (KL1, 7)] /\
   zrequested truthy 3 (f KL1) 2 7.
 Proof.
-  cbv zeta. split; [|split; [|split]].
+  cbv zeta. split; [|split].
   - intros k; destruct k; simpl; auto. repeat constructor. simpl; tauto.
-  - intros k; destruct k; simpl; auto. repeat constructor. simpl. discriminate.
   - vm_compute. reflexivity.
-  - simpl. exists 2%Z. split; [left; reflexivity | left; reflexivity].
+  - simpl. exists (-1)%Z. split; [left; reflexivity|]. right. split; reflexivity.
 Qed.
 
 Example C11_nonvacuous_reject :
@@ -192,11 +187,10 @@ Example C11_nonvacuous_reject :
                     | KNonNeg => ZList [Some 1; None; Some 0]
                     | KSimplex => ZScalar 3
                     | _ => ZNone end in
-  (forall k, zwf_spec (f k)) /\ (forall k, nonneg_spec (f k)) /\ zvalidate_table truthy 3 (zkeywords f) = Err /\
+  (forall k, zwf_spec (f k)) /\ zvalidate_table truthy 3 (zkeywords f) = Err /\
   KNonNeg <> KSimplex /\ zrequested truthy 3 (f KNonNeg) 0 1 /\ zrequested truthy 3 (f KSimplex) 0 3.
 Proof.
-  cbv zeta. split; [|split; [|split; [|split; [|split]]]].
-  - intros k; destruct k; simpl; auto.
+  cbv zeta. split; [|split; [|split; [|split]]].
   - intros k; destruct k; simpl; auto.
   - vm_compute. reflexivity.
   - discriminate.
@@ -204,13 +198,16 @@ Proof.
   - simpl. repeat split; auto with arith.
 Qed.
 
-(* a negative key on its own works as Python indexing does: {-1: 7} on order 3 constrains mode 2 *)
-Example C11_negative_key_alone :
+(* the request that slipped through before fix c019b1a: non_negative by key 2, l1_reg by key -1, order 3 - both address the
+   last mode; also one dict naming a mode twice, and a key below -n *)
+Example C11_negative_key_alias_rejected :
   let truthy := fun p : nat => negb (Nat.eqb p 0) in
-  zvalidate_table truthy 3 (zkeywords (fun k => match k with KL1 => ZDict [((-1)%Z, 7)] | _ => ZNone end))
-  = Ok [None; None; Some (KL1, 7)] /\
-  zvalidate_table truthy 3 (zkeywords (fun k => match k with KL1 => ZDict [((-4)%Z, 7)] | _ => ZNone end)) = Err.
-Proof. split; vm_compute; reflexivity. Qed.
+  zvalidate_table truthy 3 (zkeywords (fun k => match k with KNonNeg => ZDict [(2%Z, 1)] | KL1 => ZDict [((-1)%Z, 7)] | _ => ZNone end)) = Err /\
+  zvalidate_table truthy 3 (zkeywords (fun k => match k with KL1 => ZDict [(2%Z, 1); ((-1)%Z, 7)] | _ => ZNone end)) = Err /\
+  zvalidate_table truthy 3 (zkeywords (fun k => match k with KL1 => ZDict [((-4)%Z, 7)] | _ => ZNone end)) = Err /\
+  zvalidate_table truthy 3 (zkeywords (fun k => match k with KNonNeg => ZDict [(0%Z, 1)] | KL1 => ZDict [((-1)%Z, 7)] | _ => ZNone end))
+  = Ok [Some (KNonNeg, 1); None; Some (KL1, 7)].
+Proof. repeat split; vm_compute; reflexivity. Qed.
 
 (* non-vacuity of the skeleton: the model runs (tags as factors) and succeeds with budgets (2, 1) *)
 Example C11_nonvacuous_skeleton :
